@@ -656,8 +656,14 @@ const _: () = {
     }
 };
 
+#[cfg(feature="ohkami_verif")] #[cfg(feature="__rt_native__")] #[doc(hidden)]
+pub use sync::{CtrlC as __VerifCtrlC, __VERIF_SCHED};
 #[cfg(feature="__rt_native__")]
 mod sync {
+    /// verif hook H4: a callback the verification harness may install; called at numbered points of `UntilInterrupt::poll`
+    #[cfg(feature="ohkami_verif")] pub static __VERIF_SCHED: std::sync::Mutex<Option<fn(u8)>> = std::sync::Mutex::new(None);
+    #[cfg(feature="ohkami_verif")] fn __verif_point(n: u8) { let f = *__VERIF_SCHED.lock().unwrap(); if let Some(f) = f { f(n) } }
+
     pub struct WaitGroup(std::ptr::NonNull<
         std::sync::atomic::AtomicUsize
     >);
@@ -759,6 +765,22 @@ mod sync {
                 Self
             }
 
+            /// verif hook H4: exactly what the Ctrl-C handler of `new` does (kept next to it)
+            #[cfg(feature="ohkami_verif")] #[doc(hidden)]
+            pub fn __verif_on_interrupt() {
+                CATCH.store(true, Ordering::SeqCst);
+                let waker = WAKER.swap(null_mut(), Ordering::SeqCst);
+                if !waker.is_null() {
+                    unsafe {Box::from_raw(waker)}.wake();
+                }
+            }
+            #[cfg(feature="ohkami_verif")] #[doc(hidden)]
+            pub fn __verif_reset() {
+                CATCH.store(false, Ordering::SeqCst);
+                let waker = WAKER.swap(null_mut(), Ordering::SeqCst);
+                if !waker.is_null() { drop(unsafe {Box::from_raw(waker)}) }
+            }
+
             pub fn until_interrupt<T>(&self, task: impl Future<Output = T>) -> impl Future<Output = Option<T>> {
                 return UntilInterrupt(task);
 
@@ -775,6 +797,7 @@ mod sync {
                                 Poll::Ready(None)
                             } else {
                                 #[cfg(any(feature="rt_tokio", feature="rt_async-std", feature="rt_smol", feature="rt_nio"))] {
+                                    #[cfg(feature="ohkami_verif")] crate::ohkami::sync::__verif_point(1);
                                     let prev_waker = WAKER.swap(
                                         Box::into_raw(Box::new(cx.waker().clone())),
                                         Ordering::SeqCst
@@ -782,6 +805,7 @@ mod sync {
                                     if !prev_waker.is_null() {
                                         unsafe {prev_waker.drop_in_place()}
                                     }
+                                    #[cfg(feature="ohkami_verif")] crate::ohkami::sync::__verif_point(2);
                                     /* the handler may have run between the check above and the publishing of the waker */
                                     if CATCH.load(Ordering::SeqCst) {
                                         return Poll::Ready(None)
